@@ -909,6 +909,9 @@ def k3_prims():
     def template_pos(I, a, k, n):
         return VInt(I.vc.c.ghost['template'].index(_c(a[0])))
 
+    def template_rpos(I, a, k, n):
+        return VInt(I.vc.c.ghost['template'].rindex(_c(a[0])))
+
     def token_now(I, a, k, n):
         return I.env.get('__token', NONE)
 
@@ -957,7 +960,7 @@ def k3_prims():
     return {f.__name__: (lambda I, a, k, n, f=f: f(I, a, k, n)) for f in
             (S, S0, piece, out, val, evals, holes, trace, raised, exc_in, exc_is_exception, quoted,
              converted, visible, UNBOUND, visible0, visible_at, DEFAULT, local, rlen, ritem, acc, out_at,
-             scope_frame, template_pos, token_now, ext_count, ext_token, ext_last, ext_raised, ext_callee, ext_result, ext_arg, ext_out, ext_i18n, is_stream,
+             scope_frame, template_pos, template_rpos, token_now, ext_count, ext_token, ext_last, ext_raised, ext_callee, ext_result, ext_arg, ext_out, ext_i18n, is_stream,
              is_rcontext, is_scope_copy, scope_arg_visible, attr_of, module_function, globals_visible,
              in_local, translate_arg, translate_result, normalize, i18n0,
              i18n_now, i18n_at, global_now, handler_calls, handler_configured,
@@ -1054,6 +1057,8 @@ def schema_contracts(specs):
         # expression's text (so a failure is reported against the right expression)
         probes = sorted({int(m) for m in re.findall(r'\be(\d+)\b', s['text'])})
         tok = ["evals(%d) == 0 or token_at_eval(%d) == token_pos(%d)" % (n, n, n) for n in probes]
+        if s.get('no_token_posts'):
+            tok = []
         s = dict(s, ensures=list(s.get('ensures', [])) + tok)
         rz = {k: dict(v, ensures=list(v.get('ensures', [])) + tok) for k, v in s.get('raises', {}).items()}
         if '*' not in rz:
